@@ -338,6 +338,9 @@ fn long_lived_vm(ctx: &Ctx, rep: &mut Report, index: u64) {
         };
         texts.push(gen::text_of(&forms));
         for f in &forms {
+            if ctx.is_replay() {
+                println!(";; session {} heap {} cells\n{:#}", si, m.vm.verif_stats().heap_capacity, f);
+            }
             let r = run_form(&mut m, f);
             if let MwOutcome::Panic(p) = &r.outcome {
                 rep.violation(
